@@ -178,7 +178,13 @@ class Lang:
         if op is C.SUBPATTERN:
             group, add, delf, sub = av
             if add or delf:
-                raise AnalysisError("inline flag groups not modelled")
+                # scoped flags, e.g. (?-i:...): evaluate the body under the changed flags
+                saved = self.flags
+                self.flags = (self.flags | add) & ~delf
+                try:
+                    return self._sub(sub, s, pos, endpos)
+                finally:
+                    self.flags = saved
             return self._sub(sub, s, pos, endpos)
         if op is C.BRANCH:
             out = set()
@@ -283,7 +289,16 @@ class Lang:
         op, av = item
         if op is C.SUBPATTERN:
             if av[1] or av[2]:
-                raise AnalysisError("inline flag groups not modelled")
+                # (a generator: the flags must be switched around every resumption, so the
+                #  ends are collected eagerly under the scoped flags)
+                saved = self.flags
+                self.flags = (self.flags | av[1]) & ~av[2]
+                try:
+                    ends = list(self._ordered(list(av[3]), 0, s, pos, endpos))
+                finally:
+                    self.flags = saved
+                yield from ends
+                return
             yield from self._ordered(list(av[3]), 0, s, pos, endpos)
         elif op is C.BRANCH:
             for alt in av[1]:
@@ -617,7 +632,7 @@ class Automaton:
 
     # -- construction ---------------------------------------------------
     def _charset(self, op, av):
-        key = (op, repr(av))
+        key = (op, repr(av), self.flags)
         if key not in self._class_cache:
             s = frozenset(i for i, ch in enumerate(self.alphabet)
                           if ch != EOS and char_matches(op, av, ch, self.flags))
@@ -722,7 +737,12 @@ class Automaton:
             return False, {p}, {p}
         if op is C.SUBPATTERN:
             if av[1] or av[2]:
-                raise AnalysisError("inline flag groups not modelled")
+                saved = self.flags
+                self.flags = (self.flags | av[1]) & ~av[2]
+                try:
+                    return self._build(av[3], tail)
+                finally:
+                    self.flags = saved
             return self._build(av[3], tail)
         if op is C.BRANCH:
             nullable, first, last = False, set(), set()
